@@ -525,7 +525,7 @@ Theorem redis_c26_refuted :
     r_ttl ueq (ss_kv s0) tt = Some (Some 200) /\
     (* A's tick refreshes the registration created by B, and A still believes *)
     sstep s0 (QTick 0) = Some s1 /\
-    s_owner s1 = Some 1%nat /\ r_ttl ueq (ss_kv s1) tt = Some (Some 300) /\
+    s_owner s1 = Some 1%nat /\ r_ttl ueq (ss_kv s1) tt = Some (Some 1000) /\
     nth_error (ss_rs s1) 0 = Some a1 /\ s_believes a1 = true /\
     (* A's exit deletes the registration created by B, who still believes *)
     sstep s1 (QStop 0) = Some s2 /\
@@ -632,12 +632,17 @@ Proof.
     specialize (P2 i g Hg Hp) as Gi.
     destruct K as [E|[x [E Lx]]]; [destruct (s_get_empty _ E) as [X _]; congruence|].
     destruct (s_get_one _ _ E Lx) as (G & F & X). assert (Ev : rk_val x = i) by congruence.
-    assert (Hk : r_kvs (snd (r_expire ueq (ss_kv s) tt (q_ttl g))) = [mkRkv tt (rk_val x) (Some (r_now (ss_kv s) + q_ttl g))]
-                 /\ r_now (snd (r_expire ueq (ss_kv s) tt (q_ttl g))) = r_now (ss_kv s)).
-    { unfold r_expire. rewrite F. assert (Z.leb (q_ttl g) 0 = false) as -> by (apply Z.leb_gt; lia).
+    assert (Tr : 0 < refresh_ms (q_ttl g)).
+    { unfold refresh_ms. destruct (Z.ltb 0 (q_ttl g) && Z.ltb (q_ttl g) 1000) eqn:Eb; [lia|].
+      apply andb_false_iff in Eb. destruct Eb as [Eb|Eb]; [apply Z.ltb_ge in Eb; lia|].
+      apply Z.ltb_ge in Eb. assert (1 <= Z.quot (q_ttl g) 1000) by (apply Z.quot_le_lower_bound; lia). lia. }
+    set (rt := refresh_ms (q_ttl g)) in *.
+    assert (Hk : r_kvs (snd (r_expire ueq (ss_kv s) tt rt)) = [mkRkv tt (rk_val x) (Some (r_now (ss_kv s) + rt))]
+                 /\ r_now (snd (r_expire ueq (ss_kv s) tt rt)) = r_now (ss_kv s)).
+    { unfold r_expire. rewrite F. assert (Z.leb rt 0 = false) as -> by (apply Z.leb_gt; lia).
       simpl. rewrite s_remove_nil. auto. }
     destruct Hk as [Hk Hn].
-    assert (Hl : rkv_live (r_now (ss_kv s)) (mkRkv tt (rk_val x) (Some (r_now (ss_kv s) + q_ttl g))) = true)
+    assert (Hl : rkv_live (r_now (ss_kv s)) (mkRkv tt (rk_val x) (Some (r_now (ss_kv s) + rt))) = true)
       by (unfold rkv_live; simpl; apply Z.ltb_lt; lia).
     destruct (s_get_one _ _ Hk) as (G' & _ & _); [rewrite Hn; exact Hl|]. simpl in G'.
     assert (Hupd : upd i g (ss_rs s) = ss_rs s).
